@@ -290,12 +290,19 @@ func (p *ParserZH) setStmtCurrentLine(s syntax.Statement, tk *syntax.Token) {
 
 // wrap 0x2250 InvalidSyntaxCurr - with current token's startIdx
 func (p *ParserZH) getInvalidSyntaxCurr() error {
-	startIdx := p.TokenP1.StartIdx
-	return zerr.InvalidSyntax(startIdx)
+	return zerr.InvalidSyntax(p.getCurrStartIdx())
+}
+
+// getCurrStartIdx - start index of current token (0 when no token has been consumed yet)
+func (p *ParserZH) getCurrStartIdx() int {
+	if p.TokenP1 == nil {
+		return 0
+	}
+	return p.TokenP1.StartIdx
 }
 
 func (p *ParserZH) getInvalidSyntaxPeek() error {
-	startIdx := p.TokenP1.StartIdx
+	startIdx := p.getCurrStartIdx()
 	if p.TokenP2 != nil {
 		startIdx = p.TokenP2.StartIdx
 	}
@@ -304,7 +311,7 @@ func (p *ParserZH) getInvalidSyntaxPeek() error {
 }
 
 func (p *ParserZH) getUnexpectedIndentPeek() error {
-	startIdx := p.TokenP1.StartIdx
+	startIdx := p.getCurrStartIdx()
 	if p.TokenP2 != nil {
 		startIdx = p.TokenP2.StartIdx
 	}
@@ -313,7 +320,7 @@ func (p *ParserZH) getUnexpectedIndentPeek() error {
 }
 
 func (p *ParserZH) getExprMustTypeIDPeek() error {
-	startIdx := p.TokenP1.StartIdx
+	startIdx := p.getCurrStartIdx()
 	if p.TokenP2 != nil {
 		startIdx = p.TokenP2.StartIdx
 	}
